@@ -8,8 +8,8 @@ EXTENDS Uri, UriHosts, Json
    (3 octets; a digit for Unicode, not for RFC 3986), U+1F600 (4 octets) *)
 UriAlphabet  == {37, 43, 52, 67, 69, 97, 71, 47, 126, 32, 0, 233, 65300, 128512}
 UriFns       == {"decode", "encode", "encode_value", "encode_check_escaped", "encode_value_check_escaped"}
-(* authority alphabet: 'a' '.' '1' ':' '[' ']' *)
-HostAlphabet == {97, 46, 49, 58, 91, 93}
+(* authority alphabet: 'a' '.' '1' ':' '[' ']' 'v'  ("[v1.a]" is the shortest IPvFuture literal) *)
+HostAlphabet == {97, 46, 49, 58, 91, 93, 118}
 HostFns      == {"parse_host"}
 
 On(f) == f \in Fns          \* (conjunctions, so that TLC's coverage reports these names)
